@@ -124,26 +124,41 @@ impl Node {
     ///
     /// See the ABA protection at the [helping].
     fn check_cooldown(&self) {
-        // Check if the node is in cooldown, for two reasons:
-        // * Skip most of nodes fast, without dealing with them.
-        // * More importantly, sync the value of active_writers to be at least the value when the
-        //   cooldown started. That way we know the 0 we observe happened some time after
-        //   start_cooldown.
-        if self.in_use.load(Acquire) == NODE_COOLDOWN {
-            // The rest can be nicely relaxed ‒ no memory is being synchronized by these
-            // operations. We just see an up to date 0 and allow someone (possibly us) to claim the
-            // node later on.
-            if self.active_writers.load(Relaxed) == 0 {
-                let _ = self
-                    .in_use
-                    .compare_exchange(NODE_COOLDOWN, NODE_UNUSED, Relaxed, Relaxed);
+        // Check if the node is in cooldown and if so, take it out of circulation for a moment.
+        //
+        // It is important to do that *before* looking at the writers. If we only looked at the
+        // state, then checked for the writers and then changed the state (as this used to do), the
+        // node could go through the whole COOLDOWN -> UNUSED -> USED -> COOLDOWN cycle in between
+        // (other threads can claim it and give it up again). Our change of the state would still
+        // succeed, but there might be a writer that entered while that short-lived owner had a
+        // helping transaction open. If the node gets reused while such writer is still inside, it
+        // can mistake a transaction of the next owner for the one it saw (new threads and the
+        // temporary nodes all start their generations from the same value) and hand it a value
+        // loaded from a different storage.
+        if self
+            .in_use
+            .compare_exchange(NODE_COOLDOWN, NODE_USED, SeqCst, Relaxed)
+            .is_ok()
+        {
+            // Nobody else can claim the node now and whoever gave it up did so before we took it.
+            // So any writer that has seen a transaction of some previous owner either has left
+            // already or is counted in here.
+            //
+            // SeqCst (here and in reserve_writer) ‒ the writer increments the counter before it
+            // reads the control (with SeqCst), the previous owner has closed its transaction
+            // (SeqCst) before giving the node up, so the increment is ordered before this load.
+            if self.active_writers.load(SeqCst) == 0 {
+                self.in_use.store(NODE_UNUSED, Release);
+            } else {
+                // Somebody still inside, let it cool down some more.
+                self.in_use.store(NODE_COOLDOWN, Release);
             }
         }
     }
 
     /// Mark this node that a writer is currently playing with it.
     pub fn reserve_writer(&self) -> NodeReservation {
-        self.active_writers.fetch_add(1, Acquire);
+        self.active_writers.fetch_add(1, SeqCst);
         NodeReservation(self)
     }
 
